@@ -888,8 +888,11 @@ class Cast(CombinatorialActor):
 class Unpack(LiteXModule):
     def __init__(self, n, layout_to, reverse=False):
         self.source = source = Endpoint(layout_to)
-        description_from = Endpoint(layout_to).description
-        description_from.payload_layout = pack_layout(description_from.payload_layout, n)
+        description_to   = Endpoint(layout_to).description
+        description_from = EndpointDescription(
+            payload_layout = pack_layout(description_to.payload_layout, n),
+            param_layout   = description_to.param_layout,
+        )
         self.sink = sink = Endpoint(description_from)
 
         # # #
@@ -932,8 +935,11 @@ class Unpack(LiteXModule):
 class Pack(LiteXModule):
     def __init__(self, layout_from, n, reverse=False):
         self.sink = sink = Endpoint(layout_from)
-        description_to = Endpoint(layout_from).description
-        description_to.payload_layout = pack_layout(description_to.payload_layout, n)
+        description_from = Endpoint(layout_from).description
+        description_to   = EndpointDescription(
+            payload_layout = pack_layout(description_from.payload_layout, n),
+            param_layout   = description_from.param_layout,
+        )
         self.source = source = Endpoint(description_to)
 
         # # #
